@@ -97,6 +97,29 @@ func loadProgram(repo string) (*Program, error) {
 		}
 		p.Funcs[funcKey(fn)] = fn
 	}
+	// methods of generic types (not enumerated above unless instantiated): the generic bodies
+	for _, sp := range prog.AllPackages() {
+		if sp.Pkg == nil || !strings.HasPrefix(sp.Pkg.Path(), modPath) {
+			continue
+		}
+		for _, m := range sp.Members {
+			tm, ok := m.(*ssa.Type)
+			if !ok {
+				continue
+			}
+			nt, ok := tm.Type().(*types.Named)
+			if !ok || nt.TypeParams().Len() == 0 {
+				continue
+			}
+			for i := 0; i < nt.NumMethods(); i++ {
+				if fn := prog.FuncValue(nt.Method(i)); fn != nil && len(fn.Blocks) > 0 {
+					if _, have := p.Funcs[funcKey(fn)]; !have {
+						p.Funcs[funcKey(fn)] = fn
+					}
+				}
+			}
+		}
+	}
 	// contract comments
 	for _, pk := range pkgs {
 		if !strings.HasPrefix(pk.PkgPath, modPath) {
